@@ -103,16 +103,19 @@ def shape_text(n, shape, length):
     return "\n".join(lines) + "\n"
 
 
-def emu_text(n, b, h):
+def emu_text(n, b, h, descending=False):
+    """descending: the gates are written from the highest qubit down (the first gate of a section then acts on a
+    higher-numbered qubit than later ones)"""
+    order = list(range(n))[::-1] if descending else list(range(n))
     g = []
-    for i in range(n):
+    for i in order:
         if (b >> i) & 1:
             g.append("X q[%d]" % i)
-    for i in range(n):
+    for i in order:
         if (h >> i) & 1:
             g.append("H q[%d]" % i)
     nb = ~b & ((1 << n) - 1)
-    g2 = ["X q[%d]" % i for i in range(n) if (nb >> i) & 1]
+    g2 = ["X q[%d]" % i for i in order if (nb >> i) & 1]
     return "register q[%d]\nloop 2 { %s }\n%s\n" % (
         n,
         "; ".join(["prepare_all"] + g + ["measure_all"]),
@@ -392,6 +395,8 @@ class C15(Check):
             for h in sorted(range(dim), key=lambda m: (bin(m).count("1"), m)):
                 for b in range(dim):
                     yield ("emu", n, b, h)
+                    if n >= 2:
+                        yield ("emud", n, b, h)  # the same gates written from the highest qubit down
             # (b)
             yield ("out", n, "none", (), ())
             for length in range(1, bd["max_output_list"] + 1):
@@ -412,16 +417,16 @@ class C15(Check):
     # -- shrinking --------------------------------------------------------------------
     def shrink(self, case):
         kind, n = case[0], case[1]
-        if kind == "emu":
+        if kind in ("emu", "emud"):
             _k, n, b, h = case
             for i in range(n):
                 if (h >> i) & 1:
-                    yield ("emu", n, b, h & ~(1 << i))
+                    yield (kind, n, b, h & ~(1 << i))
             for i in range(n):
                 if (b >> i) & 1:
-                    yield ("emu", n, b & ~(1 << i), h)
-            if n > 1 and max(b, h) < (1 << (n - 1)):
-                yield ("emu", n - 1, b, h)
+                    yield (kind, n, b & ~(1 << i), h)
+            if n > (1 if kind == "emu" else 2) and max(b, h) < (1 << (n - 1)):
+                yield (kind, n - 1, b, h)
         elif kind == "out":
             _k, n, shape, vals, forms = case
             L = len(vals)
@@ -472,7 +477,7 @@ class C15(Check):
             with warnings.catch_warnings(record=True) as caught:
                 warnings.simplefilter("always")
                 with fuel(FUEL):
-                    if kind == "emu":
+                    if kind in ("emu", "emud"):
                         self._emu(case, ctx)
                     elif kind == "out":
                         self._out(case, ctx)
@@ -500,7 +505,7 @@ class C15(Check):
             ctx.nontriv(case)
         ctx.trace()
         try:
-            res = impl.run_jaqal_circuit(self._parse(emu_text(n, b, h)))
+            res = impl.run_jaqal_circuit(self._parse(emu_text(n, b, h, descending=(_k == "emud"))))
         except Exception as e:  # noqa: BLE001
             ctx.outcome("crash")
             ctx.fail("crash", "run_jaqal_circuit: %s: %s" % (type(e).__name__, e))
@@ -526,7 +531,8 @@ class C15(Check):
             ctx.nontriv(case)
         try:
             circuit = self._parse(emu_text(n, b, h))
-            job = impl.UnitarySerializedEmulator()(impl.expand_macros(impl.fill_in_let(impl.expand_subcircuits(circuit))))
+            backend = impl.UnitarySerializedEmulator()
+            job = backend(impl.expand_macros(impl.fill_in_let(impl.expand_subcircuits(circuit))))
         except Exception as e:  # noqa: BLE001
             ctx.outcome("crash")
             ctx.fail("crash", "creating the job: %s: %s" % (type(e).__name__, e))
@@ -568,6 +574,20 @@ class C15(Check):
                     j.probabilities(sub, "%s, subcircuit %d" % (where, v), expect=expect[v])
             if j.bad:
                 break
+        else:
+            # a NEW job of the same backend object for the same program: its result holds its own readouts only
+            ctx.trace()
+            try:
+                circuit2 = self._parse(emu_text(n, b, h))
+                res2 = backend(impl.expand_macros(impl.fill_in_let(impl.expand_subcircuits(circuit2)))).execute()
+            except Exception as e:  # noqa: BLE001
+                ctx.fail("crash", "second job of one backend: %s: %s" % (type(e).__name__, e))
+                return
+            j2 = Judge(ctx, n)
+            j2.readouts(res2, (0, 0, 1), values=(b if h == 0 else None, b if h == 0 else None, nb), support=support)
+            if len(res2.subcircuits) == 2:
+                for k, sub in enumerate(res2.subcircuits):
+                    j2.probabilities(sub, "second job of the backend, subcircuit %d" % k, expect=expect[k])
         ctx.outcome("job-basis" if h == 0 else "job-superposition")
 
     def _out(self, case, ctx):
